@@ -167,3 +167,9 @@ Print Assumptions C14_prefix_of_bounded_refuted.
 
 Example C14_prefix_of_bounded_nonvacuous : _ := prefix_of_bounded_partial_ex.
 Example C14_difference_refines_nonvacuous : _ := pull_eq_list_slice_diff_ex.
+
+(* ---- tie C: the slice an open-ended query goes through, Timeline.__getitem__ (clip "& solid" whenever a
+   bound is given), as the code has it — translation of the source text, proved equal to the model ---- *)
+From CG Require Import Gen.Source Proofs.GenEq7.
+Example C14_source_getitem_is_model : _ := g_getitem_is_model.
+Print Assumptions C14_source_getitem_is_model.
